@@ -293,6 +293,9 @@ def cz(n):
 
 
 def coq_ln(bs):
+    bs = bytes(bs)
+    if len(bs) > 24:      # one hexadecimal literal elaborates much faster than a long list of numerals
+        return f"(le_enc {len(bs)} (Z.to_N 0x{int.from_bytes(bs, 'little'):x}))"
     return "[" + "; ".join(f"{b}%N" for b in bs) + "]"
 
 
@@ -1189,21 +1192,26 @@ def norm_impl_config(c):
     return (opts, srcs, kbs, secs)
 
 
+def untext(z):
+    """one number (little-endian base 256, closed by a digit 1) -> bytes"""
+    bs = z.to_bytes((z.bit_length() + 7) // 8, "little")
+    assert bs[-1:] == b"\x01", z
+    return bs[:-1]
+
+
 def mv_dval(v):
-    t, x = v
-    if t == "i":
+    kind, x = v[1][0][1], v[1][1][1]
+    if kind == 0:
         return ("i", x)
-    if t == "s":
-        return ("s", x)
-    if t == "b":
-        return ("b", x.hex())
-    if t == "l" and len(x) == 1 and x[0][0] == "s":
-        return ("n", x[0][1])
-    raise ValueError(v)
+    if kind == 1:
+        return ("s", untext(x).decode("latin-1"))
+    if kind == 2:
+        return ("n", untext(x).decode("latin-1"))
+    return ("b", untext(x).hex())
 
 
 def mv_dict(v):
-    return tuple(sorted((kv[1][0][1], mv_dval(kv[1][1])) for kv in v[1]))
+    return tuple(sorted((untext(kv[1][0][1]).decode("latin-1"), mv_dval(kv[1][1])) for kv in v[1]))
 
 
 def mv_opt(v):
@@ -1214,9 +1222,9 @@ def norm_model_config(v):
     o, s, k, secs = v[1]
     oo, ss, kk = mv_opt(o), mv_opt(s), mv_opt(k)
     opts = None if oo is None else tuple(sorted((e[1][0][1], mv_dval(e[1][1])) for e in oo[1]))
-    srcs = None if ss is None else tuple(sorted((e[1][0][1], e[1][1][1]) for e in ss[1]))
+    srcs = None if ss is None else tuple(sorted((e[1][0][1], untext(e[1][1][1]).decode("latin-1")) for e in ss[1]))
     kbs = None if kk is None else tuple((("i", e[1][0][1]), (mv_dict(e[1][1]),)) for e in kk[1])
-    sections = tuple((("i", e[1][0][1]), tuple(((c[1][0][1], mv_dict(c[1][1])),) for c in e[1][1][1])) for e in secs[1])
+    sections = tuple((("i", e[1][0][1]), tuple(((untext(c[1][0][1]).decode("latin-1"), mv_dict(c[1][1])),) for c in e[1][1][1])) for e in secs[1])
     return (opts, srcs, kbs, sections)
 
 
@@ -1226,10 +1234,10 @@ def mv_payload(v):
     kind = v[1][0][1]
     f = [x[1] for x in v[1][1:]]
     if kind == 1:
-        return ("bytes", f[0])
+        return ("bytes", untext(f[0]))
     if kind == 2:
-        return ("wrap", {"key": f[0].hex(), "counter": f[1].hex(), "start": f[2], "end": f[3]}, f[4])
-    return ("enc", {"key": f[0].hex(), "counter": f[1].hex(), "start": f[2], "end": f[3], "swap": bool(f[4])}, f[5], f[6])
+        return ("wrap", {"key": untext(f[0]).hex(), "counter": untext(f[1]).hex(), "start": f[2], "end": f[3]}, untext(f[4]))
+    return ("enc", {"key": untext(f[0]).hex(), "counter": untext(f[1]).hex(), "start": f[2], "end": f[3], "swap": bool(f[4])}, f[5], untext(f[6]))
 
 
 def model_cmds(v):
